@@ -131,6 +131,37 @@ def file_level(ctx: Ctx, cs, base):
             if got != s:
                 ctx.violation('dump-vs-dumps', f'the file written by dump differs from the string returned by dumps ({len(got)} vs {len(s)} chars)',
                               dict(case, options=str(o)))
+                continue
+            # an option set that dumps rejects: dump raises as well and writes nothing - neither over the file just written
+            # nor at a fresh path (dumps returned no string, so there is no string to write)
+            bad = [{'from_measure': 1, 'to_measure': 0}, {'to_measure': 9999}, {'from_measure': -1},
+                   {'from_measure': 3, 'to_measure': 2}][rng.randrange(4)]
+            _, berr = kpx.dumps(d1, **bad)
+            if berr is None:
+                ctx.mon('rejected_option_set_accepted_by_dumps (C07 decides)')
+                continue
+            fresh = os.path.join(base, f'd{cs % 10 ** 6}', sub, 'rejected', f'never-{vname}.krn')
+            for target in (outp, fresh):
+                ctx.ev()
+                ctx.mon('rejected_dumps')
+                try:
+                    kp.dump(d2, target, **bad)
+                    ctx.violation('dump-vs-dumps', f'dumps rejects {bad} with {type(berr).__name__} but dump wrote a file',
+                                  dict(case, options=str(bad)))
+                    continue
+                except Exception as ex:  # noqa
+                    if type(ex) is not type(berr):
+                        ctx.violation('dump-vs-dumps', f'dumps rejects {bad} with {type(berr).__name__}, dump with {type(ex).__name__}',
+                                      dict(case, options=str(bad)))
+                        continue
+                if target is outp:
+                    now = read(outp) if os.path.exists(outp) else None
+                    if now != s:
+                        ctx.violation('dump-vs-dumps', f'a rejected dump ({bad}) changed the file written by an earlier dump '
+                                      f'({len(s)} chars before, {"missing" if now is None else len(now)} after)', dict(case, options=str(bad)))
+                elif os.path.exists(fresh):
+                    ctx.violation('dump-vs-dumps', f'a rejected dump ({bad}) left a file of {os.path.getsize(fresh)} bytes behind',
+                                  dict(case, options=str(bad)))
 
 
 def cli_level(ctx: Ctx, cs, base, real=False, strace=False):
